@@ -371,6 +371,8 @@ def canon(n, rename=None, depth=0):
         args = ks[1:]
         if op == "[]" and len(args) == 2:
             return "%s[%s]" % (c(args[0]), c(args[1]))
+        if op == "->" and len(args) == 1:
+            return c(args[0])          # smart-pointer arrow: transparent, the enclosing MemberExpr prints "->"
         if op == "()":
             return "%s(%s)" % (c(args[0]), ", ".join(c(a) for a in args[1:]))
         if len(args) == 2:
